@@ -39,6 +39,7 @@ from happysimulator.components.replication.conflict_resolver import (  # noqa: E
 )
 from happysimulator.components.replication.multi_leader import LeaderNode  # noqa: E402
 from happysimulator.components.replication.primary_backup import BackupNode, PrimaryNode, ReplicationMode  # noqa: E402
+from happysimulator.core.callback_entity import CallbackEntity  # noqa: E402
 from happysimulator.core.entity import Entity  # noqa: E402
 from happysimulator.core.event import Event, ProcessContinuation  # noqa: E402
 from happysimulator.core.sim_future import SimFuture  # noqa: E402
@@ -56,14 +57,22 @@ RULE = (
     "the engine; after every delivered event the monitor samples every replica's public store and polls the reply "
     "futures. Oracles: SYNC ack -> no backup behind; SEMI_SYNC ack -> not all backups behind; chain ack -> no chain "
     "node behind; chain read (tail, or any node with CRAQ) -> value already held by the tail's store; every scheme -> "
-    "equal stores at quiescence (empty heap; multi-leader: every ordered pair started an anti-entropy exchange after the "
-    "last state change and early enough to have finished, state unchanged since). 'Behind' = holds neither the acked "
+    "equal stores at quiescence (empty heap; multi-leader: for every ordered pair the anti-entropy timer fired for that "
+    "peer after the last state change / last operation / end of the last partition or loss window, early enough for an "
+    "exchange to have finished, state unchanged since). Family mlpart adds Network.partition or scripted drop windows "
+    "that swallow anti-entropy rounds of each side after its last write, then a healed quiescent phase of up to 60 "
+    "intervals (non-trivial there: replicas differed at the heal and some pair had rounds swallowed both ways). 'Behind' = holds neither the acked "
     "value nor a value the primary/head applied later for that key. Non-trivial: some receiver got two replication "
     "messages for one key out of their send order (rstore: two puts of one key overlapped in time). Distinct by hash "
     "of the case."
 )
 ASSUMPTIONS = [
-    "no message loss, no crashes, no partitions: the statement presupposes that in-flight messages are delivered",
+    "no crashes; no message loss and no partitions except in family mlpart, whose partition / loss windows all end before "
+    "the quiescent phase: the statement presupposes that in-flight messages are delivered, so its premise is evaluated "
+    "only after the last window has ended",
+    "multi-leader 'anti-entropy has run' is measured by timer firings (AntiEntropy ticks and the peer drawn for each, "
+    "recorded by a transparent wrapper around random.choice; 20*(n-1) firings per leader if the draw is not observable), "
+    "not by messages exchanged",
     "primary/head sequence order is read off the primary's/head's own public store history (values are unique)",
     "chain reads are sent to the tail, or to any node only when CRAQ is enabled (reading a non-tail node of a plain chain is outside the protocol)",
     "multi-leader conflict resolvers supplied by the harness are deterministic total orders consistent with causality "
@@ -74,7 +83,7 @@ ASSUMPTIONS = [
     "the global `random` module (LeaderNode picks its anti-entropy peer with random.choice) is seeded from the case",
     "ReplicatedStore is driven through one coordinator instance, as in its documentation",
 ]
-MUST_OBSERVE = ["sync_acks_checked", "semi_sync_acks_checked", "chain_acks_checked", "chain_reads_checked", "craq_reads_served_locally", "ml_fixpoints_reached", "quiescence_checks"]
+MUST_OBSERVE = ["sync_acks_checked", "semi_sync_acks_checked", "chain_acks_checked", "chain_reads_checked", "craq_reads_served_locally", "ml_fixpoints_reached", "mlpart_fixpoints_reached", "quiescence_checks"]
 
 ML_MAX_ROUNDS = 60
 
@@ -745,6 +754,77 @@ def gen_ml(rng: random.Random, tier: str) -> dict:
     }
 
 
+def gen_mlpart(rng: random.Random, tier: str) -> dict:
+    """Multi-leader with a partition / loss window that swallows anti-entropy rounds of each side *after* that side's
+    last write, followed by a long healed quiescent phase."""
+    n = rng.choice([2, 2, 2, 3, 3, 4])
+    names = [f"l{i}" for i in range(n)]
+    keys = _keys(rng)
+    net = gen_net(rng, names, ["Replicate", "Replicate", "AntiEntropyRequest", "AntiEntropyResponse"])
+    interval = rng.choice([0.2, 0.5, 1.0])
+    ops = gen_ops(rng, tier, n, keys, list(range(n)), list(range(n)), net["grid"], p_write=0.8)
+    t_last = max(o["t"] for o in ops)
+    order = names[:]
+    rng.shuffle(order)
+    k = rng.randrange(1, n)
+    rounds = rng.choice([2, 3, 5, 8] if n == 2 else [4, 8, 12, 20])
+    kind = rng.choice(["partition", "partition", "drop"])
+    cuts = [
+        {
+            "kind": kind,
+            "a": sorted(order[:k]),
+            "b": sorted(order[k:]),
+            "asymmetric": rng.random() < 0.2,
+            "from": round(rng.choice([0.0, rng.uniform(0.0, t_last), rng.uniform(0.0, t_last)]), 4),
+            "to": round(t_last + (rounds + rng.random()) * interval, 4),
+        }
+    ]
+    if kind == "drop" and rng.random() < 0.4:
+        # a second, shorter loss window between another split (drop rules may overlap freely)
+        rng.shuffle(order)
+        k2 = rng.randrange(1, n)
+        f2 = rng.uniform(0.0, t_last + interval)
+        cuts.append(
+            {"kind": "drop", "a": sorted(order[:k2]), "b": sorted(order[k2:]), "asymmetric": rng.random() < 0.3,
+             "from": round(f2, 4), "to": round(f2 + rng.uniform(0.5, 4.0) * interval, 4)}
+        )
+    return {
+        "scheme": "mlpart",
+        "n": n,
+        "keys": keys,
+        "resolver": rng.choice(["lww", "lww", "default", "vcmerge", "vcmerge_fn", "custom_lww"]),
+        "lat": gen_lat(rng, n),
+        "ae_interval": interval,
+        "ae_first": [round(rng.uniform(0.01, interval), 3) for _ in range(n)],
+        "ae_seed": rng.randrange(1 << 30),
+        "ops": ops,
+        "net": net,
+        "cuts": cuts,
+    }
+
+
+def _cut_blocks(c: dict, a: str, b: str) -> bool:
+    """Does cut `c` block messages a -> b?"""
+    if a in c["a"] and b in c["b"]:
+        return True
+    return not c.get("asymmetric") and a in c["b"] and b in c["a"]
+
+
+def _net_with_cuts(net_spec: dict, cuts: list[dict]) -> dict:
+    """Loss windows of kind 'drop' become first-match drop rules of the delay script."""
+    rules = []
+    for c in cuts:
+        if c["kind"] != "drop":
+            continue
+        for a in c["a"] + c["b"]:
+            for b in c["a"] + c["b"]:
+                if a != b and _cut_blocks(c, a, b):
+                    rules.append({"src": a, "dst": b, "type": None, "after": c["from"], "before": c["to"], "drop": True})
+    if not rules:
+        return net_spec
+    return dict(net_spec, rules=rules + list(net_spec.get("rules", [])))
+
+
 def _vc_leq(a: dict, b: dict) -> bool:
     return all(c <= b.get(k, 0) for k, c in a.items())
 
@@ -756,7 +836,8 @@ def run_ml(case: dict) -> Result:
     n = case["n"]
     names = [f"l{i}" for i in range(n)]
     keys = case["keys"]
-    script = GridScript(case["net"])
+    cuts = case.get("cuts", [])
+    script = GridScript(_net_with_cuts(case["net"], cuts))
     net = Network(name="net")
     stores = _stores_of(case["lat"], names)
     interval = case["ae_interval"]
@@ -772,12 +853,32 @@ def run_ml(case: dict) -> Result:
     dmax = max_delay(case["net"])
     hmax = (len(keys) + 1) * max(w for _r, w in case["lat"]) + max(r for r, _w in case["lat"])
     settle = 2 * dmax + 2 * hmax + 1e-6
-    horizon = t_last_op + settle + ML_MAX_ROUNDS * interval
-    sim = Simulation(entities=[*nodes, *stores, net], end_time=Instant.from_seconds(horizon))
+    t_heal = max([c["to"] for c in cuts] + [0.0])
+    t_base = max(t_last_op, t_heal)
+    horizon = t_base + settle + ML_MAX_ROUNDS * interval
+    by_name = {nd.name: nd for nd in nodes}
+    ctl = []
+    for c in cuts:
+        if c["kind"] != "partition":
+            continue
+        handle = {}
+
+        def cut(_e, c=c, handle=handle):
+            handle["h"] = net.partition([by_name[x] for x in c["a"]], [by_name[x] for x in c["b"]], asymmetric=bool(c.get("asymmetric")))
+
+        def heal(_e, handle=handle):
+            if "h" in handle:
+                handle["h"].heal()
+
+        ctl.append((c["from"], CallbackEntity(f"cut@{c['from']}", fn=cut)))
+        ctl.append((c["to"], CallbackEntity(f"heal@{c['to']}", fn=heal)))
+    sim = Simulation(entities=[*nodes, *stores, net, *[e for _t, e in ctl]], end_time=Instant.from_seconds(horizon))
     mon = Mon(stores, keys, nodes, {"Replicate", "Write", "Read", "AntiEntropyRequest", "AntiEntropyResponse", "AntiEntropy"})
     random.seed(case["ae_seed"])
     for i, nd in enumerate(nodes):
         sim.schedule(Event(time=Instant.from_seconds(case["ae_first"][i]), event_type="AntiEntropy", target=nd, daemon=True))
+    for t, ent in ctl:
+        sim.schedule(Event(time=Instant.from_seconds(t), event_type="NetControl", target=ent))
 
     def on_reply(op):
         if op["o"]["op"] == "w":
@@ -787,8 +888,16 @@ def run_ml(case: dict) -> Result:
 
     # versions are part of the replicated state (public property); a change of version with equal value also counts
     ver_sig = [None] * n
-    state = {"last_ver_change_ns": 0, "log_pos": 0, "covered": {}, "fixpoint": False, "t_fix": None}
+    state = {"last_ver_change_ns": 0, "fixpoint": False, "t_fix": None, "t_star": 0, "equal_at_heal": None}
     all_pairs = {(a, b) for a in names for b in names if a != b}
+    # "Anti-entropy has run" is measured by *timer firings*, not by messages: every AntiEntropy tick is logged together
+    # with the peer the leader drew for it (a transparent recorder around random.choice, the library's way of picking
+    # the peer).  A leader that fires its timer and decides not to talk has still run its anti-entropy round.
+    ticks: list[tuple] = []  # (t_ns, leader name, chosen peer name | None)
+    choices: list = []
+    t_base_ns = int(t_base * 1e9)
+    t_heal_ns = int(t_heal * 1e9)
+    fallback_ticks = 20 * (n - 1)
 
     def extra(event):
         # version changes
@@ -798,32 +907,80 @@ def run_ml(case: dict) -> Result:
             if sig != ver_sig[i]:
                 ver_sig[i] = sig
                 state["last_ver_change_ns"] = mon.now_ns
+        if cuts and state["equal_at_heal"] is None and mon.now_ns > t_heal_ns:
+            # first delivery after the last window ended (the store sample of this delivery is already in)
+            state["equal_at_heal"] = all(mon.cur[i] == mon.cur[0] for i in range(1, n))
         if event.event_type != "AntiEntropy" or isinstance(event, ProcessContinuation):
             return
-        if mon.pending or mon.now_ns < t_last_op * 1e9:
+        who = getattr(event.target, "name", None)
+        chosen = choices[-1] if choices else None
+        del choices[:]
+        ticks.append((mon.now_ns, who, getattr(chosen, "name", None)))
+        if mon.pending or mon.now_ns <= t_base_ns:
             return
-        t_star = max(mon.last_change_ns, state["last_ver_change_ns"], int(t_last_op * 1e9))
+        t_star = max(mon.last_change_ns, state["last_ver_change_ns"], t_base_ns)
         covered = set()
-        for send_ns, src, dst, etype, _n, _d in script.log:
-            if etype == "AntiEntropyRequest" and send_ns > t_star and send_ns + settle * 1e9 <= mon.now_ns:
-                covered.add((src, dst))
+        blind: dict = {}
+        for s_ns, a, b in ticks:
+            if s_ns > t_star and s_ns + settle * 1e9 <= mon.now_ns:
+                if b is None:
+                    blind[a] = blind.get(a, 0) + 1
+                else:
+                    covered.add((a, b))
+        for a, cnt in blind.items():  # peer choice not observable: fall back to a count of timer firings
+            if cnt >= fallback_ticks:
+                covered |= {(a, b) for b in names if b != a}
         if covered >= all_pairs:
             state["fixpoint"] = True
             state["t_fix"] = mon.now_ns
+            state["t_star"] = t_star
             sim.control.pause()
 
     mon.on_reply = on_reply
     mon.extra = extra
     _schedule_ops(sim, mon, ops, nodes)
     sim.control.on_event(mon.after_event)
-    status = _run_sim(sim, res)
+    orig_choice = random.choice
+
+    def recording_choice(seq):
+        r = orig_choice(seq)
+        choices.append(r)
+        return r
+
+    random.choice = recording_choice
+    try:
+        status = _run_sim(sim, res)
+    finally:
+        random.choice = orig_choice
+    res.count("ae_timer_firings", len(ticks))
 
     def order_of(m):
         w = m.get("writer_id")
         vc = m.get("vector_clock") or {}
         return (w, vc.get(w, 0)) if w is not None else None
 
-    _mark_nontrivial(res, mon, "Replicate", order_of)
+    if not cuts:
+        _mark_nontrivial(res, mon, "Replicate", order_of)
+    else:
+        # non-trivial: the replicas differed when the last window ended, and for some pair both directions had an
+        # anti-entropy round swallowed after the sender's last store change
+        def last_change_before_heal(i):
+            return max([t for h in mon.hist[i] for _i, t, _v in h if t <= t_heal_ns] + [0])
+
+        idx = {nm: i for i, nm in enumerate(names)}
+        swallowed = set()
+        for s_ns, a, b in ticks:
+            if b is None or s_ns <= last_change_before_heal(idx[a]):
+                continue
+            if any(c["from"] * 1e9 < s_ns < c["to"] * 1e9 and _cut_blocks(c, a, b) for c in cuts):
+                swallowed.add((a, b))
+        res.count("mlpart_ae_rounds_swallowed_after_last_change", len(swallowed))
+        both = any((b, a) in swallowed for a, b in swallowed)
+        if state["equal_at_heal"] is False:
+            res.count("mlpart_diverged_at_heal")
+            if both:
+                res.nontrivial = True
+                res.count("mlpart_diverged_at_heal_with_rounds_swallowed_both_ways")
     res.count("ae_requests_delivered", sum(1 for a in mon.arrivals if a[3] == "AntiEntropyRequest"))
     if status != "completed":
         return res
@@ -836,22 +993,31 @@ def run_ml(case: dict) -> Result:
         )
         return res
     res.count("quiescence_checks")
-    res.count("ml_fixpoints_reached")
+    res.count("mlpart_fixpoints_reached" if cuts else "ml_fixpoints_reached")
     if any(len(h) > 2 for i in range(n) for h in mon.hist[i]):
         res.count("ml_fixpoints_after_overwrites")
+    requests_after = sum(1 for send_ns, _s, _d, et, _n, _dl in script.log if et == "AntiEntropyRequest" and send_ns > state["t_star"])
     if not equal:
         for j, k in enumerate(keys):
             vals = [mon.cur[i][j] for i in range(n)]
             if len(set(vals)) > 1:
                 vers = [nodes[i].versions.get(k) for i in range(n)]
                 shape = _ml_shape(vers)
+                if requests_after == 0:
+                    shape = "anti-entropy-timer-fires-without-sending"
+                n_ticks = sum(1 for s_ns, _a, _b in ticks if s_ns > state["t_star"])
                 once.add(
                     "divergence-after-anti-entropy",
                     "LeaderNode",
                     shape,
-                    f"resolver={case['resolver']}: every ordered pair exchanged after the last state change "
-                    f"(t*={max(mon.last_change_ns, state['last_ver_change_ns'])}ns, now={mon.now_ns}ns) and key {k} is {vals}",
-                    {"versions": [None if v is None else [v.value, v.timestamp, v.writer_id, v.vector_clock] for v in vers]},
+                    f"resolver={case['resolver']}: for every ordered pair the anti-entropy timer fired after the last state "
+                    f"change / heal / operation (t*={state['t_star']}ns, now={mon.now_ns}ns, {n_ticks} timer firings and "
+                    f"{requests_after} AntiEntropyRequest(s) since t*) and key {k} is {vals}",
+                    {
+                        "versions": [None if v is None else [v.value, v.timestamp, v.writer_id, v.vector_clock] for v in vers],
+                        "cuts": cuts,
+                        "ticks_since_t_star": [t for t in ticks if t[0] > state["t_star"]][:24],
+                    },
                 )
     return res
 
@@ -1050,10 +1216,11 @@ FAMILIES = {
     "pb": Family("pb", gen_pb, run_pb, shrink=_shrink, case_timeout=30.0),
     "chain": Family("chain", gen_chain, run_chain, shrink=_shrink, case_timeout=30.0),
     "ml": Family("ml", gen_ml, run_ml, shrink=_shrink, case_timeout=30.0),
+    "mlpart": Family("mlpart", gen_mlpart, run_ml, shrink=_shrink, case_timeout=30.0),
     "rstore": Family("rstore", gen_rstore, run_rstore, shrink=_shrink, case_timeout=30.0),
 }
 
 BUDGET = {
-    "quick": {"pb": 3000, "chain": 3000, "ml": 1200, "rstore": 400},
-    "thorough": {"pb": 120000, "chain": 120000, "ml": 40000, "rstore": 8000},
+    "quick": {"pb": 3000, "chain": 3000, "ml": 1200, "mlpart": 800, "rstore": 400},
+    "thorough": {"pb": 120000, "chain": 120000, "ml": 40000, "mlpart": 20000, "rstore": 8000},
 }
